@@ -511,6 +511,10 @@ pub struct C13Scenario {
     /// explicit crash points (replay / minimised): overrides enumeration when non-empty
     #[serde(default)]
     pub only_points: Vec<CrashPoint>,
+    /// the configuration's max_retained_runs is rewritten to this value after the prefix runs: the run
+    /// that is killed is the first one under the new limit
+    #[serde(default)]
+    pub retained_after_prefix: Option<usize>,
 }
 
 #[derive(Serialize, Deserialize, Clone, Debug, PartialEq)]
@@ -524,17 +528,25 @@ pub struct C13;
 
 fn gen_c13(seed: u64, idx: usize, tier: Tier) -> C13Scenario {
     let mut rng = Rng::new(scenario_seed(seed, "C13", idx));
-    let max = *rng.pick(&[2usize, 2, 3, 5]);
+    // one history in five changes the retention limit before the run that is killed
+    let relimit = rng.chance(1, 5);
+    let max = if relimit { *rng.pick(&[3usize, 5, 8, 2]) } else { *rng.pick(&[2usize, 2, 3, 5]) };
     let nt = rng.range(1, 3);
     let ncmd = rng.range(1, 2);
     let spec = flat_world(&mut rng, nt, ncmd, max, 0, true);
-    let np = rng.below(4);
+    let np = if relimit { rng.range(1, max.min(6)) } else { rng.below(4) };
     let prefix = (1..=np).map(|i| gen_step(&mut rng, &spec, i, true, ncmd)).collect();
     let crash_run = gen_step(&mut rng, &spec, 90, true, ncmd);
     let mut follow_up = gen_step(&mut rng, &spec, 99, false, ncmd);
     for b in follow_up.behav.iter_mut() {
         b.code = 0;
     }
+    let retained_after_prefix = if relimit {
+        let cands: Vec<usize> = [2usize, 3, 4, 6].iter().cloned().filter(|&m| m != max).collect();
+        Some(*rng.pick(&cands))
+    } else {
+        None
+    };
     C13Scenario {
         spec,
         prefix,
@@ -545,6 +557,7 @@ fn gen_c13(seed: u64, idx: usize, tier: Tier) -> C13Scenario {
         sample_seed: rng.next_u64(),
         max_points: if tier == Tier::Thorough { 0 } else { 10 },
         only_points: vec![],
+        retained_after_prefix,
     }
 }
 
@@ -644,6 +657,14 @@ impl Property for C13 {
             }
             out.trace.push(format!("prefix run {} exit {:?}", i + 1, tr.code()));
         }
+        if let Some(m) = sc.retained_after_prefix {
+            w.spec.max_retained_runs = m;
+            if w.write_config().is_err() {
+                return Outcome::skip("config rewrite failed");
+            }
+            out.fault("retention_limit_changed_before_the_killed_run", 1);
+            out.trace.push(format!("max_retained_runs {} -> {}", sc.spec.max_retained_runs, m));
+        }
         let backup = w.root.join(".backup-out");
         let _ = std::fs::remove_dir_all(&backup);
         if w.out_dir().exists() {
@@ -709,7 +730,8 @@ impl Property for C13 {
             keep.extend(rest);
             points = keep;
         }
-        let max = sc.spec.max_retained_runs;
+        // under a changed limit the directories of the old ring legitimately outlive the change
+        let max = if sc.retained_after_prefix.is_some() { usize::MAX } else { sc.spec.max_retained_runs };
         for cp in &points {
             restore(&w, &backup);
             let mut cs = crash_script.clone();
@@ -792,7 +814,7 @@ impl Property for C13 {
         out.probe("effects_enumerated", effects);
         out.probe("crash_points_available", total_points as u64);
         out.nontrivial = out.sub_evals > 0 && (s0.result.is_ok() || sc.checkpoint);
-        out.signature = format!("{:?}|{}|{:?}|{}", sc.spec.targets.len(), sc.prefix.len(), sc.crash_run.opts, sc.checkpoint);
+        out.signature = format!("{:?}|{}|{:?}|{}", sc.spec.targets.len(), sc.prefix.len(), sc.crash_run.opts, sc.checkpoint) + &format!("|{:?}", sc.retained_after_prefix);
         out.steps = out.sub_evals;
         out
     }
@@ -820,6 +842,11 @@ impl Property for C13 {
                 s.checkpoint = false;
                 outv.push(serde_json::to_value(s).unwrap());
             }
+            if sc.retained_after_prefix.is_some() {
+                let mut s = sc.clone();
+                s.retained_after_prefix = None;
+                outv.push(serde_json::to_value(s).unwrap());
+            }
             if sc.crash_run.behav.iter().any(|b| !b.outs.is_empty() || b.code != 0) {
                 let mut s = sc.clone();
                 for b in s.crash_run.behav.iter_mut() {
@@ -832,7 +859,7 @@ impl Property for C13 {
         outv
     }
     fn rule(&self) -> String {
-        "history prefix of 0-3 completed runs and an optional checkpoint (max_retained_runs >= 2); a recording pass lists every filesystem effect of the run to be killed (LD_PRELOAD shim), every parked point and every controller decision step; the run is then re-executed from the restored state and killed before / after each effect, after half of each write (torn), at each parked point and between helper steps (quick: seeded sample of 10 points per scenario always including effects on the pointer and result files; thorough: every point). Oracle: result show / log show / checkpoint show unchanged (or the killed run's own complete record once the pointer update has completed), next run succeeds and becomes the latest within max slots. Non-trivial = state existed to be damaged (a completed run or a checkpoint) and at least one crash was executed; distinct = (targets, prefix length, crash-run options, checkpoint)".into()
+        "history prefix of 0-3 completed runs and an optional checkpoint (max_retained_runs >= 2; one history in five has 1-6 runs under one limit and rewrites max_retained_runs - lowered or raised - before the run that is killed); a recording pass lists every filesystem effect of the run to be killed (LD_PRELOAD shim), every parked point and every controller decision step; the run is then re-executed from the restored state and killed before / after each effect, after half of each write (torn), at each parked point and between helper steps (quick: seeded sample of 10 points per scenario always including effects on the pointer and result files; thorough: every point). Oracle: result show / log show / checkpoint show unchanged (or the killed run's own complete record once the pointer update has completed), next run succeeds and becomes the latest within max slots. Non-trivial = state existed to be damaged (a completed run or a checkpoint) and at least one crash was executed; distinct = (targets, prefix length, crash-run options, checkpoint)".into()
     }
     fn components(&self) -> Value {
         components()
